@@ -25,6 +25,31 @@ SENSOR_NAME = {'v4': 'anc_c19_%s', 'v3': 'anc/c19_%s', 'v2': 'Enviro/c19_%s', 'v
 CENTRE = [1284e6, 1284e6 + 856e6 / 4096 * 64]
 
 
+# what distinguishes the subarray / spectral window of a part from the default one, per format that can express it
+VARIANTS = {'perm': ('v4', 'v3', 'v2'), 'antdesc': ('v4', 'v3', 'v2'), 'bw': ('v4', 'v3', 'v2'), 'prod': ('v4',),
+            'band': ('v4',)}
+
+
+def permute(bls, how):
+    """The same correlation products in another order (how = 1: even positions first, 2: reversed, 3: first two
+    swapped)."""
+    bls = [tuple(x) for x in bls]
+    if how == 1:
+        return bls[0::2] + bls[1::2]
+    if how == 2:
+        return bls[::-1]
+    return [bls[1], bls[0]] + bls[2:]
+
+
+def moved(desc):
+    """The same antenna (name, diameter) at another position."""
+    if isinstance(desc, bytes):
+        desc = desc.decode()
+    fields = desc.split(', ')
+    fields[-1] = '77 -5 1'
+    return ', '.join(fields)
+
+
 def sensor_name(fmt, short):
     return SENSOR_NAME[fmt] % short
 
@@ -40,6 +65,10 @@ def _rows(spec, t0, kind, samples):
         return [(t0 + dt * pos / 4.0, float(v)) for pos, v in samples], np.float64
     if kind == 's':
         return [(t0 + dt * d - 0.9 - (16.0 if d == 0 else 0.0), v.encode()) for d, v in samples], 'S16'
+    if kind == 'b':
+        return [(t0 + dt * d - 0.9 - (16.0 if d == 0 else 0.0), bool(v)) for d, v in samples], np.bool_
+    if kind == 'u':
+        return [(t0 + dt * d - 0.9 - (16.0 if d == 0 else 0.0), int(v)) for d, v in samples], np.uint8
     return [(t0 + dt * d - 0.9 - (16.0 if d == 0 else 0.0), int(v)) for d, v in samples], np.int64
 
 
@@ -53,6 +82,8 @@ class Part:
         self.tag = tag
         self.opened = []
         targets = [(d, TARGETS[t]) for d, t in spec['targets']]
+        # variations of what makes the subarray / spectral window of this part (see VARIANTS)
+        self.var = var = dict(spec.get('var') or {})
         if fmt == 'v4':
             extra = []
             t0 = BASE['v4'] + spec['start']
@@ -60,17 +91,31 @@ class Part:
                 if kind == 'f':
                     rows = [(t0 + spec['dt'] * pos / 4.0, float(v)) for pos, v in samples]
                 else:
-                    rows = [(t0 + spec['dt'] * d - 0.9 - (16.0 if d == 0 else 0.0), v) for d, v in samples]
+                    conv = {'b': bool, 'u': np.uint8}.get(kind, lambda v: v)
+                    rows = [(t0 + spec['dt'] * d - 0.9 - (16.0 if d == 0 else 0.0), conv(v)) for d, v in samples]
                 extra.append((sensor_name(fmt, short), rows))
             kw = dict(T=spec['T'], F=spec['F'], ants=tuple(spec['ants']), cbid='%010d' % (1000000000 + spec['start']),
                       first_timestamp=float(spec['start']), int_time=spec['dt'], seed=spec['seed'],
-                      center_freq=CENTRE[spec['cfv']], bandwidth=856e6 / 4096 * spec['F'],
+                      center_freq=CENTRE[spec['cfv']], bandwidth=856e6 / 4096 * spec['F'] * (2 if var.get('bw') else 1),
+                      sub_product='c856M32k' if var.get('prod') else 'c856M4k',
                       acts=tuple(spec['acts']), targets=tuple(targets), labels=tuple(spec['labels']),
                       extra_sensors=tuple(extra), tmp=os.path.join(tmp, tag), construct=False)
-            if spec.get('bls') is not None:
-                kw['bls_ordering'] = spec['bls']
+            bls = spec.get('bls')
+            if var.get('perm'):
+                bls = permute(bls if bls is not None else v4.bls_ordering_for(tuple(spec['ants'])), var['perm'])
+            if bls is not None:
+                kw['bls_ordering'] = [tuple(x) for x in bls]
             self.x = v4.build_v4(**kw)
             self.fn = None
+            ts = self.x.telstate
+            if var.get('band'):
+                ts.delete('sub_band')
+                ts['sub_band'] = 'u'
+            if var.get('antdesc'):
+                a = spec['ants'][-1]
+                old = ts[a + '_observer']
+                ts.delete(a + '_observer')
+                ts[a + '_observer'] = moved(old)
         elif fmt == 'v1':
             # v1 files store scans inside compound scans: cut the dumps at every event
             self.fn = os.path.join(tmp, '%s_%d.h5' % (tag, int(BASE[fmt] + spec['start'])))
@@ -103,6 +148,19 @@ class Part:
                 for short, (kind, samples) in sorted(spec['sens'].items()):
                     rows, vd = _rows(spec, t0, kind, samples)
                     _h5_sensor(g, 'c19_' + short, rows, vd)
+                corr = f['TelescopeModel/cbf'] if fmt == 'v3' else f['MetaData/Configuration/Correlator']
+                if var.get('perm'):
+                    old = [tuple(x) for x in corr.attrs['bls_ordering']]
+                    corr.attrs['bls_ordering'] = np.array(permute(old, var['perm']), dtype='S')
+                if var.get('bw'):
+                    corr.attrs['bandwidth'] = corr.attrs['bandwidth'] * 2
+                if var.get('antdesc'):
+                    a = spec['ants'][-1]
+                    if fmt == 'v3':
+                        f['TelescopeModel'][a].attrs['observer'] = moved(f['TelescopeModel'][a].attrs['observer'])
+                    else:
+                        g2 = f['MetaData/Configuration/Antennas'][a]
+                        g2.attrs['description'] = moved(g2.attrs['description'])
         self.open_kwargs = dict(centre_freq=CENTRE[spec['cfv']]) if fmt == 'v3' else {}
 
     def fresh(self):
